@@ -42,6 +42,7 @@ type Profile struct {
 	DupLabels  bool
 	NoStaleCtx bool // predicates/state blocks do not observe c.text / c.pos (avoid Q-STALE-CTX)
 	NoFFFDLit  bool // no literal contains U+FFFD (avoid Q-LIT-EOF)
+	RuleLabels bool // label names are made distinct between rules (x0, x1, ..)
 	CharAlt    int  // percentage of choices built from single-character literals and small classes over a shared alphabet
 	ThrowIdiom int  // percentage of rules built as labelled-failure idioms (guarded items in sequence / nested)
 	ScanPct    int  // percentage of grammars wrapped in a scanning start rule S <- (v:R0 w:. {..} / .)*
@@ -837,6 +838,18 @@ func GenGrammar(p *Profile, seed int64) (rules []*Rule, blocks map[int]*Block, g
 	}
 	if p.LR && g.pct(85) {
 		g.genLRShape(rules)
+	}
+	if p.RuleLabels {
+		// labels of different rules do not clash: inlining a rule into its user (-optimize-grammar) otherwise lets the
+		// inlined rule's label capture the user's label of the same name (known finding C09-INLINE-LABEL-CAPTURE)
+		for i, r := range rules {
+			ix := i
+			walkNodes(r.Expr, func(n *Node) {
+				if n.K == KLab {
+					n.Label = fmt.Sprintf("%s%d", n.Label, ix)
+				}
+			})
+		}
 	}
 	if p.LR && p.Blocks && len(rules) >= 2 && g.pct(30) {
 		// S <- first:E rest:(op T)* !. : operands are matched again right after the left-recursive rule gave up
